@@ -39,6 +39,7 @@ type Step struct {
 	Blocks  int      `json:"blocks,omitempty"` // lag: replica stops receiving for this many blocks (partition), then catches up in a burst
 	Cfg     *NodeCfg `json:"cfg,omitempty"`    // reconfig: restart with this configuration
 	NoInfo  bool     `json:"no_info,omitempty"` // upgrade: restart without upgrade-info.json
+	HQ      *HQuery  `json:"hq,omitempty"`      // hquery: a hostile query issued against every live replica
 }
 
 type RunConfig struct {
